@@ -9,6 +9,8 @@
 package main
 
 import (
+	"errors"
+	"syscall"
 	"sort"
 	"bytes"
 	"fmt"
@@ -24,6 +26,10 @@ import (
 
 	"github.com/irai/packet"
 	"github.com/irai/packet/fastlog"
+	"github.com/irai/packet/handlers/arp_spoofer"
+	"github.com/irai/packet/handlers/dhcp4_spoofer"
+	"github.com/irai/packet/handlers/dns_naming"
+	"github.com/irai/packet/handlers/icmp_spoofer"
 	"pvharness/lib"
 )
 
@@ -154,6 +160,109 @@ func runSeq(r *lib.Run, a []string) string {
 		}
 	}
 	return strings.Join(obs, ";")
+}
+
+// ---------------------------------------------------------------- modes: log level, write failures
+
+// keep remembers the error a send function returned (the last value of its results).
+var lastErr error
+
+func keep(v ...interface{}) {
+	lastErr = nil
+	for _, x := range v {
+		if e, ok := x.(error); ok {
+			lastErr = e
+		}
+	}
+}
+
+// The log level is a mode of the library, not an input of the model: every case runs at the level derived
+// from its kind and configuration tokens (so that a replay runs at the same one); all settable loggers of the
+// five packages are set together (the `logs` census lists every package-level fastlog logger of the source).
+var levelNames = []string{"error", "info", "debug"}
+
+func levelOf(kind string, a []string) int {
+	h := uint32(2166136261)
+	mix := func(t string) {
+		for i := 0; i < len(t); i++ {
+			h = (h ^ uint32(t[i])) * 16777619
+		}
+	}
+	mix(kind)
+	for i := 0; i < 6 && i < len(a); i++ {
+		mix(a[i])
+	}
+	return int(h>>7) % 3
+}
+
+func setLevels(l int) {
+	lv := []fastlog.LogLevel{fastlog.LevelError, fastlog.LevelInfo, fastlog.LevelDebug}[l]
+	for _, lg := range []*fastlog.Logger{packet.Logger, arp_spoofer.Logger, dhcp4_spoofer.Logger, dns_naming.Logger,
+		dns_naming.LoggerMDNS, icmp_spoofer.Logger4, icmp_spoofer.Logger6} {
+		lg.SetLevel(lv)
+	}
+}
+
+// reg registers the runner of a send kind so that it runs at the level of its case line.
+func reg(r *lib.Run, kind string, f func(a []string) string) {
+	r.Register(kind, func(a []string) string {
+		l := levelOf(kind, a)
+		setLevels(l)
+		r.Stat("level."+levelNames[l], 1)
+		r.Stat("level."+kind+"."+levelNames[l], 1)
+		return f(a)
+	})
+}
+
+var failErrs = map[string]error{"enobufs": syscall.ENOBUFS, "eagain": syscall.EAGAIN, "eintr": syscall.EINTR,
+	"enetdown": syscall.ENETDOWN, "emsgsize": syscall.EMSGSIZE, "generic": errors.New("write failed"), "closed": net.ErrClosed}
+
+// runFail: wfail <error> <full case line of a call that sends one frame>.  The first write of the call fails
+// with the error (nothing reaches the wire); what the library writes afterwards (a retry) is recorded; the error
+// the call returns is classified (injected / nil / other).  Then the same call again on a healthy connection
+// and the same pool: its frame, and the pool inspected.  Model: the error is returned, nothing is sent
+// (C07_write_error_is_returned), the next call is unaffected.
+func runFail(r *lib.Run, a []string) string {
+	inj, ok := failErrs[a[0]]
+	if !ok || len(a) < 3 || !seqKinds[a[1]] {
+		return "bad-wfail"
+	}
+	if sess == nil {
+		sess, conn = lib.NewSession()
+	}
+	keepPool = false
+	poisonPool(0)
+	keepPool, poolDup = true, 0
+	defer func() { keepPool = false; conn.Fail = nil }()
+	first := true
+	conn.Fail = func(b []byte) error {
+		if first {
+			first = false
+			return inj
+		}
+		return nil
+	}
+	lastErr = nil
+	o1 := r.Exec(a[1], a[2:])
+	switch {
+	case lastErr == nil:
+		o1 += "/err=nil"
+	case errors.Is(lastErr, inj):
+		o1 += "/err=injected"
+	default:
+		o1 += "/err=other:" + lastErr.Error()
+	}
+	if first {
+		o1 += "/no-write"
+	}
+	conn.Fail = nil
+	o2 := r.Exec(a[1], a[2:])
+	poisonPool(0)
+	if poolDup > 0 {
+		o2 += "+pool-holds-a-buffer-twice"
+		poolDup = 0
+	}
+	return o1 + ";" + o2
 }
 
 // ---------------------------------------------------------------- configuration / tokens
@@ -356,7 +465,7 @@ func main() {
 	fastlog.DefaultIOWriter = io.Discard // the library logs every online transition
 
 	// purgearp <cfg> ip seed : Session.arpRequest through purge (VerifPurge) for an online, stale IPv4 host
-	r.Register("purgearp", func(a []string) string {
+	reg(r, "purgearp", func(a []string) string {
 		c, a := cfgOf(a)
 		ip := tokIP(a[0])
 		s, cn := lib.NewSessionWith(c.nic())
@@ -379,33 +488,35 @@ func main() {
 		}
 		return showFrames(mine)
 	})
-	r.Register("echo4", func(a []string) string {
+	reg(r, "echo4", func(a []string) string {
 		c, a := cfgOf(a)
 		return withCfg(c, atoi(a[6]), func(s *packet.Session) {
-			s.ICMP4SendEchoRequest(packet.Addr{MAC: tokMAC(a[0]), IP: tokIP(a[1])}, packet.Addr{MAC: tokMAC(a[2]), IP: tokIP(a[3])}, uint16(atoi(a[4])), uint16(atoi(a[5])))
+			keep(s.ICMP4SendEchoRequest(packet.Addr{MAC: tokMAC(a[0]), IP: tokIP(a[1])}, packet.Addr{MAC: tokMAC(a[2]), IP: tokIP(a[3])}, uint16(atoi(a[4])), uint16(atoi(a[5]))))
 		})
 	})
-	r.Register("echo6", func(a []string) string {
+	reg(r, "echo6", func(a []string) string {
 		c, a := cfgOf(a)
 		return withCfg(c, atoi(a[6]), func(s *packet.Session) {
-			s.ICMP6SendEchoRequest(packet.Addr{MAC: tokMAC(a[0]), IP: tokIP(a[1])}, packet.Addr{MAC: tokMAC(a[2]), IP: tokIP(a[3])}, uint16(atoi(a[4])), uint16(atoi(a[5])))
+			keep(s.ICMP6SendEchoRequest(packet.Addr{MAC: tokMAC(a[0]), IP: tokIP(a[1])}, packet.Addr{MAC: tokMAC(a[2]), IP: tokIP(a[3])}, uint16(atoi(a[4])), uint16(atoi(a[5]))))
 		})
 	})
-	r.Register("ns", func(a []string) string {
+	reg(r, "ns", func(a []string) string {
 		c, a := cfgOf(a)
 		return withCfg(c, atoi(a[5]), func(s *packet.Session) {
-			s.ICMP6SendNeighbourSolicitation(packet.Addr{MAC: tokMAC(a[0]), IP: tokIP(a[1])}, packet.Addr{MAC: tokMAC(a[2]), IP: tokIP(a[3])}, tokIP(a[4]))
+			keep(s.ICMP6SendNeighbourSolicitation(packet.Addr{MAC: tokMAC(a[0]), IP: tokIP(a[1])}, packet.Addr{MAC: tokMAC(a[2]), IP: tokIP(a[3])}, tokIP(a[4])))
 		})
 	})
-	r.Register("na", func(a []string) string {
+	reg(r, "na", func(a []string) string {
 		c, a := cfgOf(a)
 		return withCfg(c, atoi(a[6]), func(s *packet.Session) {
-			s.ICMP6SendNeighborAdvertisement(packet.Addr{MAC: tokMAC(a[0]), IP: tokIP(a[1])}, packet.Addr{MAC: tokMAC(a[2]), IP: tokIP(a[3])}, packet.Addr{MAC: tokMAC(a[4]), IP: tokIP(a[5])})
+			keep(s.ICMP6SendNeighborAdvertisement(packet.Addr{MAC: tokMAC(a[0]), IP: tokIP(a[1])}, packet.Addr{MAC: tokMAC(a[2]), IP: tokIP(a[3])}, packet.Addr{MAC: tokMAC(a[4]), IP: tokIP(a[5])}))
 		})
 	})
 	registerPaths(r)
 	r.Register("sites", func(a []string) string { return strings.Join(censusSites(r), ",") })
 	r.Register("seq", func(a []string) string { return runSeq(r, a) })
+	r.Register("wfail", func(a []string) string { return runFail(r, a) })
+	r.Register("logs", func(a []string) string { return strings.Join(logCensus(r), ",") })
 	r.Register("pool", func(a []string) string { return strings.Join(poolCensus(r), ",") })
 	r.Register("reach", func(a []string) string { an, _ := reachCensus(r); return strings.Join(an, ",") })
 	if r.Replayed() {
@@ -505,6 +616,19 @@ func main() {
 		r.Do("seq", toks...)
 		r.Stat("class.seq", 1)
 		r.Stat("class.seq.after-refused-"+kr[i%len(kr)], 1)
+	}
+	// transient send errors: the first write of a call fails
+	nfail := 140
+	if r.Thorough() {
+		nfail = 4000
+	}
+	en := []string{"enobufs", "eagain", "eintr", "enetdown", "emsgsize", "generic", "closed"}
+	for i := 0; i < nfail && len(ks) > 0; i++ {
+		k := ks[i%len(ks)]
+		st := seqSent[k][rng.Intn(len(seqSent[k]))]
+		r.Do("wfail", append([]string{en[(i/len(ks))%len(en)]}, st...)...)
+		r.Stat("class.wfail", 1)
+		r.Stat("class.wfail."+en[(i/len(ks))%len(en)], 1)
 	}
 	carryBoundary(r, g, do)
 	r.Sample("purgearp 005555555555 c0a80081 fe800000000000000000000000010129 006666666666 c0a8000b 1500 c0a80005 7 => ffffffff0604... (destination MAC bytes 4,5 overwritten by hlen/plen; arp hlen/plen stale)")
